@@ -157,11 +157,13 @@ def run_property(prop_id, tier="quick", seed=0, jobs=None, only=None, write_evid
             errors.append((r["harness"], {"type": "vacuous", "msg": "no cover point reached on a satisfiable path"}))
         for ob in r["obligations"]:
             g = groups.setdefault(ob["name"], {"name": ob["name"], "harness": r["harness"], "n": 0, "discharged": 0,
-                                               "refuted": [], "undecided": [], "kind": ob["kind"]})
+                                               "refuted": [], "undecided": [], "kind": ob["kind"], "nonvacuous": 0})
             g["n"] += 1
             by_backend[ob["backend"]] = by_backend.get(ob["backend"], 0) + 1
             if ob["status"] == "discharged":
                 g["discharged"] += 1
+                if not ob.get("vacuous"):
+                    g["nonvacuous"] += 1
             elif ob["status"] == "refuted":
                 g["refuted"].append(ob)
             else:
@@ -193,6 +195,9 @@ def run_property(prop_id, tier="quick", seed=0, jobs=None, only=None, write_evid
         if not g["refuted"]:
             n_oblig += g["n"]
             n_disch += g["discharged"]
+            if g["discharged"] and not g["nonvacuous"] and g["kind"] != "canary":
+                errors.append((g["harness"], {"type": "vacuous_obligation",
+                                              "msg": f"{name}: discharged only on paths whose condition is unsatisfiable"}))
             continue
         # refuted: replay each distinct witness signature
         h = hmap[g["harness"]]
